@@ -2,20 +2,30 @@
 C20 — the command-line compiler: option precedence, CLI option collection, header/source
 consistency of the generated blocks, file assembly, namespace sanitising.
 
-Models: FfcxModel/Cli/Options.lean (hand-written, tied to ffcx/options.py, ffcx/main.py,
-ffcx/formatting.py by the correspondence run of harness/props/c20.py) and the tables
-FfcxModel/Generated/{Options,Templates}.lean regenerated from /repo on every run.
+Models: FfcxModel/Cli/Options.lean and FfcxModel/Cli/Templates.lean (hand-written, tied to
+ffcx/options.py, ffcx/main.py, ffcx/formatting.py and the C generators by the correspondence run of
+harness/props/c20.py) and the tables FfcxModel/Generated/{Options,Templates,TemplatePieces}.lean
+regenerated from /repo on every run.
 
 Status: all full.
   merge_precedence, cli_only_given (over the regenerated parser table: an FFCx option is in
   `priority_options` iff the command line supplied it — this includes the `store_true` options since
   their argparse default became None; a parser change that reintroduces a non-None default breaks
-  `cli_only_given_generated`), cli_not_given_falls_through, decl_defined, format_code_concat,
+  `cli_only_given_generated`), cli_not_given_falls_through,
+  decl_defined_templates (for EVERY filling of the holes of the regenerated C template pairs that is
+  lexically self-contained: a name the declaration instance declares `extern` is defined by the
+  implementation instance), source_defines_declared / cli_header_source_consistent (the same through
+  `format_code`: header = declarations, source = implementations, block by block in the same order,
+  and the definition is found in the text of the whole source file),
+  decl_defined_probes (regression table: the lexed output of four probe runs × two languages),
+  format_code_concat (+ format_code_ragged, format_code_no_default: IndexError modelled),
   sanitise_ident, cli_alias_valid.
 -/
 import FfcxProofs.Lemmas.Names
+import FfcxProofs.Lemmas.CliTemplates
 import FfcxModel.Generated.Options
 import FfcxModel.Generated.Templates
+import FfcxModel.Generated.TemplatePieces
 
 namespace Ffcx.Cli
 open Ffcx.Naming
@@ -202,31 +212,238 @@ example : Dict.get (mainOptions actions defaultDict [] [("scalar_type", Scalar.s
     "scalar_type" = some (Scalar.str (cs! "float32")) := by decide
 
 open Ffcx.Generated.Options in
-example : Dict.keys (priorityOptions actions [("scalar_type", Scalar.str (cs! "float32"))]) =
-    ["dir", "visualise", "profile", "scalar_type"] := by decide
+/-- Whatever other flags the parser has: the only FFCx option in the priority dict is the given one. -/
+example : (Dict.keys (priorityOptions actions [("scalar_type", Scalar.str (cs! "float32"))])).filter
+      (fun k => actions.any fun a => a.dest == k && a.ffcxOption) = ["scalar_type"] := by decide
 
-/-! ## Header / source consistency of every generated block -/
+open Ffcx.Generated.Options in
+/-- … and none at all when nothing is given. -/
+example : (Dict.keys (priorityOptions actions [])).filter
+      (fun k => actions.any fun a => a.dest == k && a.ffcxOption) = [] := by decide
+
+/-! ## Header / source consistency, over the TEMPLATES (every filling) -/
+
+section Templates
+open Ffcx.Cli.Tpl
+
+/-- The filling satisfies every obligation the symbolic run of the template collects: identifier
+holes hold identifiers, holes inside `//` comments hold no newline, every other hole holds
+lexically self-contained C text (`Ob` in FfcxModel/Cli/Templates.lean). Evaluated on the real
+fillings of every real run by harness/props/c20.py. -/
+def Respects (σ : Filling) (t : Template) : Prop := ∀ ob ∈ obligations t, ob.check σ = true
+
+instance (σ : Filling) (t : Template) : Decidable (Respects σ t) := by
+  unfold Respects; infer_instance
+
+theorem init_map (σ : Filling) : (Ctl.init : Ctl Sym).map (expand σ) = (Ctl.init : Ctl Char) := rfl
+
+/-- The items of an instance, from the symbolic run of the template. -/
+theorem items_of_symRun {σ : Filling} {t : Template} {r : SymRes} (h : symRun t Ctl.init = some r)
+    (hσ : Respects σ t) :
+    (run (inst σ t) Ctl.init).1 = r.ctl.map (expand σ) ∧
+    (∀ it ∈ r.items, expandItem σ it ∈ items (inst σ t)) ∧
+    (r.exact = true → items (inst σ t) = r.items.map (expandItem σ)) := by
+  have hob : ∀ ob ∈ r.obs, ob.check σ = true := by
+    intro ob hm; apply hσ; simp [obligations, h, hm]
+  obtain ⟨cits, h1, h2, h3⟩ := symRun_sound σ t Ctl.init r h hob
+  rw [init_map] at h1
+  simp only [items, h1]
+  exact ⟨trivial, h2, h3⟩
+
+/-- One template pair that passes the symbolic check, ANY filling that respects the obligations:
+a name declared `extern` by the declaration instance is defined (same type text, same name) by
+the implementation instance, and the implementation instance ends where it started (code mode,
+brace depth 0, a new item may start). -/
+theorem decl_defined_pair {decl impl : Template} (hok : pairOk decl impl = true) (σ : Filling)
+    (hd : Respects σ decl) (hi : Respects σ impl) :
+    (∀ ty name : Str, DeclaredIn (inst σ decl) ty name → DefinedIn (inst σ impl) ty name) ∧
+    (run (inst σ impl) Ctl.init).1 = Ctl.init := by
+  unfold pairOk at hok
+  split at hok
+  · rename_i d i hds his
+    simp only [Bool.and_eq_true, List.all_eq_true, Bool.or_eq_true, bne_iff_ne, ne_eq,
+      beq_iff_eq, List.contains_iff_mem] at hok
+    obtain ⟨⟨hex, hall⟩, hend⟩ := hok
+    obtain ⟨_, _, hdit⟩ := items_of_symRun hds hd
+    obtain ⟨hiend, himem, _⟩ := items_of_symRun his hi
+    refine ⟨?_, ?_⟩
+    · intro ty name hdecl
+      unfold DeclaredIn at hdecl
+      rw [hdit hex] at hdecl
+      obtain ⟨it, hit, heq⟩ := List.mem_map.mp hdecl
+      simp only [expandItem, Prod.mk.injEq] at heq
+      rcases hall it hit with hne | ⟨hpre, hmem⟩
+      · exact absurd heq.2 (by simpa using hne)
+      · have hsplit : it.1 = lits (cs! "extern ") ++ it.1.drop 7 := by
+          conv => lhs; rw [← List.take_append_drop 7 it.1]
+          rw [hpre]
+        have hexp : expand σ (it.1.drop 7) = ty ++ ' ' :: name := by
+          have := heq.1
+          rw [hsplit] at this
+          simp only [expand, inst_append] at this
+          rw [inst_lits] at this
+          exact List.append_cancel_left this
+        have := himem _ hmem
+        simp only [expandItem, expand, inst_append] at this
+        unfold DefinedIn
+        simp only [expand] at hexp
+        rw [hexp] at this
+        simpa [inst] using this
+    · rw [hiend, hend]; rfl
+  · exact absurd hok (by simp)
+
+open Ffcx.Generated.TemplatePieces in
+/-- Every (declaration, implementation) pair of template strings of the C backend (regenerated from
+/repo: form, integral, expression, file pre, file post) passes the symbolic check. -/
+theorem templates_pairOk : ∀ p ∈ cPairs, pairOk p.2.2.2.1 p.2.2.2.2 = true := by decide +kernel
+
+open Ffcx.Generated.TemplatePieces in
+/-- FULL (unbounded in the fillings; the table of templates is finite and complete by
+regeneration): for every template pair of the C backend and EVERY filling of the holes — factory
+names, alias names, counts, initialisers, kernel bodies — that respects the lexical obligations,
+every name the declaration instance declares `extern` is defined by the implementation instance. -/
+theorem decl_defined_templates : ∀ p ∈ cPairs, ∀ σ : Filling,
+    Respects σ p.2.2.2.1 → Respects σ p.2.2.2.2 →
+    ∀ ty name : Str, DeclaredIn (inst σ p.2.2.2.1) ty name → DefinedIn (inst σ p.2.2.2.2) ty name :=
+  fun p hp σ hd hi => (decl_defined_pair (templates_pairOk p hp) σ hd hi).1
+
+/-- Non-vacuous: a concrete filling of the form templates (every hole that is not mentioned is
+left empty) respects the obligations, and the two names it declares are the factory name and the
+alias. -/
+def demoFilling : Filling := fun h =>
+  if h = "factory_name" then cs! "form_0123abcd"
+  else if h = "name_from_uflfile" then cs! "form_my_prefix_a"
+  else if h = "signature" then cs! "\"0123abcd\""
+  else if h = "form_integral_offsets_init" then cs! "int form_integral_offsets_form_0123abcd[6] = {0, 1, 1, 1, 1, 1};"
+  else if h = "form_integrals_init" then cs! "static ufcx_integral* form_integrals_form_0123abcd[1] = {&integral_77_triangle};"
+  else []
+
+open Ffcx.Generated.TemplatePieces in
+example : Respects demoFilling c_form_declaration ∧ Respects demoFilling c_form_factory ∧
+    DeclaredIn (inst demoFilling c_form_declaration) (cs! "ufcx_form") (cs! "form_0123abcd") ∧
+    DeclaredIn (inst demoFilling c_form_declaration) (cs! "ufcx_form*") (cs! "form_my_prefix_a") ∧
+    DefinedIn (inst demoFilling c_form_factory) (cs! "ufcx_form*") (cs! "form_my_prefix_a") := by
+  decide +kernel
+
+/-- The obligations are needed (hand-written pair, so that the example does not depend on the
+wording of the real templates): the pair passes the symbolic check, but a filling that opens a
+comment hides the definition — and violates `Respects`. -/
+def toyDecl : Template := lits (cs! "extern T ") ++ [Sym.hole "factory_name"] ++ lits (cs! ";\n")
+def toyImpl : Template :=
+  [Sym.hole "body"] ++ lits (cs! "\nT ") ++ [Sym.hole "factory_name"] ++ lits (cs! " = 1;\n")
+def toyFilling (body : Str) : Filling := fun h => if h = "factory_name" then cs! "obj" else if h = "body" then body else []
+
+example : pairOk toyDecl toyImpl = true ∧
+    (Respects (toyFilling (cs! "int x;")) toyImpl ∧ DefinedIn (inst (toyFilling (cs! "int x;")) toyImpl) (cs! "T") (cs! "obj")) ∧
+    (¬ Respects (toyFilling (cs! "/*")) toyImpl ∧ DeclaredIn (inst (toyFilling (cs! "/*")) toyDecl) (cs! "T") (cs! "obj") ∧
+      ¬ DefinedIn (inst (toyFilling (cs! "/*")) toyImpl) (cs! "T") (cs! "obj")) ∧
+    (¬ Respects (toyFilling (cs! "void f() {")) toyImpl ∧
+      ¬ DefinedIn (inst (toyFilling (cs! "void f() {")) toyImpl) (cs! "T") (cs! "obj")) := by
+  decide +kernel
+
+open Ffcx.Generated.TemplatePieces in
+/-- Every object template declares something, forms and expressions declare two names. -/
+example : (cPairs.filter fun p => (externHoles p.2.2.2.1).length ≥ 1).length ≥ 3 ∧
+    (cPairs.filter fun p => (externHoles p.2.2.2.1).length ≥ 2).length ≥ 2 := by decide +kernel
+
+/-! ### Through `format_code`: whole files -/
+
+theorem items_append_closed {a b : Str} (h : (run a Ctl.init).1 = Ctl.init) :
+    items (a ++ b) = items a ++ items b ∧ (run (a ++ b) Ctl.init).1 = (run b Ctl.init).1 := by
+  simp [items, run_append, h]
+
+/-- Texts that each end in the initial state can be concatenated: the items of the whole are the
+items of the parts. -/
+theorem items_flatten_closed : ∀ l : List Str, (∀ s ∈ l, (run s Ctl.init).1 = Ctl.init) →
+    items l.flatten = (l.map items).flatten ∧ (run l.flatten Ctl.init).1 = Ctl.init
+  | [], _ => by simp [items, run, grun]
+  | s :: l, h => by
+    have hs := h s (by simp)
+    have ih := items_flatten_closed l (fun x hx => h x (by simp [hx]))
+    have := items_append_closed (a := s) (b := l.flatten) hs
+    simp [this.1, this.2, ih.1, ih.2]
+
+/-- A generated block: its template pair and the filling the generator used. -/
+structure TBlock where
+  decl : Template
+  impl : Template
+  σ : Filling
+
+/-- `(declaration, implementation)` as `<kind>.generator` returns it. -/
+def TBlock.tuple (b : TBlock) : List Str := [inst b.σ b.decl, inst b.σ b.impl]
+
+def TBlock.Ok (b : TBlock) : Prop :=
+  pairOk b.decl b.impl = true ∧ Respects b.σ b.decl ∧ Respects b.σ b.impl
+
+/-- Every name declared by the declaration text of any block is defined in the text of the whole
+source file (the concatenation of all implementation texts). -/
+theorem source_defines_declared (bs : List TBlock) (hok : ∀ b ∈ bs, b.Ok) :
+    ∀ b ∈ bs, ∀ ty name : Str, DeclaredIn (inst b.σ b.decl) ty name →
+      DefinedIn (bs.map fun b => inst b.σ b.impl).flatten ty name := by
+  intro b hb ty name hd
+  have hclosed : ∀ s ∈ bs.map (fun b => inst b.σ b.impl), (run s Ctl.init).1 = Ctl.init := by
+    intro s hs
+    obtain ⟨b', hb', rfl⟩ := List.mem_map.mp hs
+    exact (decl_defined_pair (hok b' hb').1 b'.σ (hok b' hb').2.1 (hok b' hb').2.2).2
+  have hdef := (decl_defined_pair (hok b hb).1 b.σ (hok b hb).2.1 (hok b hb).2.2).1 ty name hd
+  unfold DefinedIn at hdef ⊢
+  rw [(items_flatten_closed _ hclosed).1]
+  simp only [List.map_map, List.mem_flatten, List.mem_map, Function.comp]
+  exact ⟨_, ⟨b, hb, rfl⟩, hdef⟩
+
+/-- `format_code` on blocks that are template instances: no IndexError, the header is the
+concatenation of the declaration instances and the source the concatenation of the
+implementation instances, block by block in the same order
+(file_pre, integrals, forms, expressions, file_post). -/
+theorem format_code_templates (p0 : TBlock) (pre ints forms exprs post : List TBlock) :
+    formatCodeE (CodeBlocks.toList ⟨(p0 :: pre).map TBlock.tuple, ints.map TBlock.tuple,
+        forms.map TBlock.tuple, exprs.map TBlock.tuple, post.map TBlock.tuple⟩) =
+      some [((p0 :: pre ++ ints ++ forms ++ exprs ++ post).map fun b => inst b.σ b.decl).flatten,
+            ((p0 :: pre ++ ints ++ forms ++ exprs ++ post).map fun b => inst b.σ b.impl).flatten] := by
+  simp [formatCodeE, formatCode, CodeBlocks.toList, TBlock.tuple, List.range, List.range.loop,
+    Function.comp_def]
+
+/-- FULL: the pair of files `format_code` returns for blocks instantiated from checked template
+pairs: every name a block declares in the header is defined in the source file. -/
+theorem cli_header_source_consistent (p0 : TBlock) (pre ints forms exprs post : List TBlock)
+    (hok : ∀ b ∈ p0 :: pre ++ ints ++ forms ++ exprs ++ post, b.Ok) :
+    ∃ header source : Str,
+      formatCodeE (CodeBlocks.toList ⟨(p0 :: pre).map TBlock.tuple, ints.map TBlock.tuple,
+        forms.map TBlock.tuple, exprs.map TBlock.tuple, post.map TBlock.tuple⟩) = some [header, source] ∧
+      header = ((p0 :: pre ++ ints ++ forms ++ exprs ++ post).map fun b => inst b.σ b.decl).flatten ∧
+      ∀ b ∈ p0 :: pre ++ ints ++ forms ++ exprs ++ post, ∀ ty name : Str,
+        DeclaredIn (inst b.σ b.decl) ty name → DefinedIn source ty name :=
+  ⟨_, _, format_code_templates p0 pre ints forms exprs post, rfl,
+    source_defines_declared _ hok⟩
+
+end Templates
+
+/-! ## Header / source consistency of the probe runs (regression table) -/
 
 open Ffcx.Generated.Templates in
-/-- What `decl_defined` checks for one block. -/
+/-- What `decl_defined_probes` checks for one block. -/
 def blockOk (b : Block) : Bool :=
   -- every name declared in the header text is defined (with external linkage) in the source text
   b.declared.all (fun n => b.defined.contains n) &&
   -- the generated object itself is defined
   (b.factory == "" || b.defined.contains b.factory) &&
-  -- forms and expressions have an alias, it points at the generated object, and (C) is declared
+  -- forms and expressions have an alias, it points at the generated object, and (C) is declared;
+  -- `expectedAlias` is computed by the extractor from the UFL objects, their names and the prefix
+  -- of the probe (not read back from the IR)
   ((b.kind != "form" && b.kind != "expression") ||
     (b.expectedAlias != "" && b.aliases.contains (b.expectedAlias, b.factory) &&
       (b.lang != "C" || b.declared.contains b.expectedAlias))) &&
-  -- alias shape: <kind>_<prefix>_<name> with the probe prefix "pfx"
-  (b.expectedAlias == "" || (b.kind ++ "_pfx_").toList.isPrefixOf b.expectedAlias.toList) &&
+  -- alias shape: <kind>_<prefix>_<name> with the prefix of the probe
+  (b.expectedAlias == "" || (b.kind ++ "_" ++ b.pfx ++ "_").toList.isPrefixOf b.expectedAlias.toList) &&
   -- nothing is defined twice
   decide ((b.defined ++ b.statics).Nodup)
 
 open Ffcx.Generated.Templates in
-/-- Over the table regenerated from the real generators: every object declared in the header is
-defined in the source, aliases point at the generated object. -/
-theorem decl_defined : ∀ b ∈ blocks, blockOk b = true := by
+/-- REGRESSION TABLE (not a statement about all UFL files — that is `decl_defined_templates`):
+over the blocks obtained by running the real generators on four probe inputs × two languages and
+lexing the output, every object declared in the header is defined in the source, aliases point at
+the generated object, nothing is defined twice. -/
+theorem decl_defined_probes : ∀ b ∈ blocks, blockOk b = true := by
   decide
 
 open Ffcx.Generated.Templates in
@@ -239,17 +456,57 @@ example : ∃ b ∈ blocks, b.lang = "numba" ∧ b.aliases ≠ [] := by decide
 /-- Column `i` of a block: the `i`-th string of every tuple, concatenated. -/
 def col (b : List (List Str)) (i : Nat) : Str := (b.map fun t => t.getD i []).flatten
 
+/-- Every tuple of every block has at least `n` strings. -/
+def wideEnough (n : Nat) (blocks : List (List (List Str))) : Bool :=
+  blocks.all fun b => b.all fun t => decide (n ≤ t.length)
+
 /-- Every output file is file_pre ++ integrals ++ forms ++ expressions ++ file_post of its own
-column, in this order — the same order in the header and in the source. -/
+column, in this order — the same order in the header and in the source — provided no tuple is
+shorter than the first one of file_pre; otherwise Python raises IndexError. -/
 theorem format_code_concat (c : CodeBlocks) (t0 : List Str) (rest : List (List Str))
     (hpre : c.filePre = t0 :: rest) :
-    formatCode c.toList = (List.range t0.length).map fun i =>
-      col c.filePre i ++ col c.integrals i ++ col c.forms i ++ col c.expressions i ++ col c.filePost i := by
-  simp [formatCode, CodeBlocks.toList, hpre, col]
+    formatCodeE c.toList =
+      if wideEnough t0.length c.toList = true then
+        some ((List.range t0.length).map fun i =>
+          col c.filePre i ++ col c.integrals i ++ col c.forms i ++ col c.expressions i ++ col c.filePost i)
+      else none := by
+  simp [formatCodeE, formatCode, CodeBlocks.toList, hpre, col, wideEnough]
 
-example : formatCode (CodeBlocks.toList ⟨[[cs! "h0", cs! "c0"]], [[cs! "h1", cs! "c1"], [cs! "h2", cs! "c2"]],
-    [[cs! "h3", cs! "c3"]], [], [[cs! "h4", cs! "c4"]]⟩) = [cs! "h0h1h2h3h4", cs! "c0c1c2c3c4"] := by
+/-- A ragged input — some tuple shorter than the first one — is an IndexError, whatever the rest. -/
+theorem format_code_ragged (blocks : List (List (List Str))) (t0 : List Str)
+    (r0 : List (List Str)) (rb : List (List (List Str))) (hb : blocks = (t0 :: r0) :: rb)
+    (b : List (List Str)) (t : List Str) (hbm : b ∈ blocks) (htm : t ∈ b) (hshort : t.length < t0.length) :
+    formatCodeE blocks = none := by
+  subst hb
+  have : ¬ (((t0 :: r0) :: rb).all fun b => b.all fun t => decide (t0.length ≤ t.length)) = true := by
+    simp only [List.all_eq_true, decide_eq_true_eq]
+    intro hall
+    have := hall b hbm t htm
+    omega
+  simp only [formatCodeE]
+  rw [if_neg this]
+
+/-- In the successful case the `getD` default of the model is never used: every string that is
+concatenated is a real element of its tuple. -/
+theorem format_code_no_default (n : Nat) (blocks : List (List (List Str)))
+    (h : wideEnough n blocks = true) :
+    ∀ b ∈ blocks, ∀ t ∈ b, ∀ i, i < n → ∃ hi : i < t.length, t.getD i [] = t[i] := by
+  intro b hb t ht i hi
+  simp only [wideEnough, List.all_eq_true, decide_eq_true_eq] at h
+  have := h b hb t ht
+  exact ⟨by omega, by simp [List.getD_eq_getElem?_getD, List.getElem?_eq_getElem (show i < t.length by omega)]⟩
+
+example : formatCodeE (CodeBlocks.toList ⟨[[cs! "h0", cs! "c0"]], [[cs! "h1", cs! "c1"], [cs! "h2", cs! "c2"]],
+    [[cs! "h3", cs! "c3"]], [], [[cs! "h4", cs! "c4"]]⟩) = some [cs! "h0h1h2h3h4", cs! "c0c1c2c3c4"] := by
   decide
+
+/-- ragged: the form block has a 1-tuple -/
+example : formatCodeE (CodeBlocks.toList ⟨[[cs! "h0", cs! "c0"]], [], [[cs! "h3"]], [], [[cs! "h4", cs! "c4"]]⟩) = none := by
+  decide
+
+/-- longer tuples are truncated silently (no error) -/
+example : formatCodeE (CodeBlocks.toList ⟨[[cs! "h0"]], [], [[cs! "h3", cs! "c3"]], [], [[cs! "h4"]]⟩) =
+    some [cs! "h0h3h4"] := by decide
 
 /-! ## sanitise_filename -/
 
